@@ -108,7 +108,10 @@ def prune(flavour, keep_dir):
             if p != keep_dir and os.path.isdir(p):
                 cands.append((os.path.getmtime(p), p))
     cands.sort(reverse=True)
-    for _, p in cands[1:]:  # keep newest other + current
+    now = time.time()
+    for mt, p in cands[2:]:  # keep the two newest others + current; never prune a tree used in the last hour
+        if now - mt < 3600:
+            continue
         log("pruning " + p)
         shutil.rmtree(p, ignore_errors=True)
 
